@@ -14,6 +14,7 @@
 import Std.Data.HashMap
 import Gozod.Model.FormatSpec
 import Gozod.Model.FormatSpecV6
+import Gozod.Model.FormatSpecV6E
 import Gozod.Model.FormatSpecDT
 import Gozod.Model.GoParsers
 import Gozod.Gen.Regexes
@@ -311,7 +312,7 @@ def mkCert (S E : Spec) (specText exclText reText jobName fmtName : String) (r0 
       else s!"buildD {reText} [" ++ ", ".intercalate (parents.toList.map fun (i, c) => s!"({i},{c})") ++ "]"
     let tTxt := "[" ++ ", ".intercalate (tbl.toList.map fun row => "[" ++ ",".intercalate (row.toList.map toString) ++ "]") ++ "]"
     let tree := buildTree S E sorted 0 sorted.size
-    let specModule := if (specText.splitOn "dtTail").length > 1 then "Gozod.Model.FormatSpecDT" else if (specText.splitOn "ipv6").length > 1 || (specText.splitOn "cidrv6").length > 1 then "Gozod.Model.FormatSpecV6"
+    let specModule := if (exclText.splitOn "QuadDefect").length > 1 then "Gozod.Model.FormatSpecV6E" else if (specText.splitOn "dtTail").length > 1 then "Gozod.Model.FormatSpecDT" else if (specText.splitOn "ipv6").length > 1 || (specText.splitOn "cidrv6").length > 1 then "Gozod.Model.FormatSpecV6"
       else "Gozod.Model.FormatSpec"
     let lText := if L == Fmt.nonHexLetters then "Fmt.nonHexLetters" else ppNats L
     -- the checker wants every `L` byte to kill every derivative
@@ -344,6 +345,10 @@ def jobE (name : String) (S E : Spec) (specText exclText reText : String) (r0 : 
 /-- certificate over the strings that contain no byte of `B` -/
 def jobR (name : String) (S : Spec) (specText reText : String) (r0 : Re) (B L : List Nat) : Job :=
   ⟨name, fun _ => mkCert S Spec.never specText "Spec.never" reText name (fmtOf reText) r0 B L⟩
+
+/-- certificate over the strings that contain no byte of `B`, outside the excluded region `E` -/
+def jobRE (name : String) (S E : Spec) (specText exclText reText : String) (r0 : Re) (B L : List Nat) : Job :=
+  ⟨name, fun _ => mkCert S E specText exclText reText name (fmtOf reText) r0 B L⟩
 
 def lookupRe (name : String) (which : Nat) (pat : Bool) : Re :=
   match Gen.table.lookup name with
@@ -383,6 +388,9 @@ def jobs : List Job := [
   -- without '%' and '.': the pattern is RFC 4291
   jobR "ipv6_partial" Fmt.ipv6Hex "Fmt.ipv6Hex" "pat_ipv6" (lookupRe "ipv6" 0 true) [46, 37] Fmt.nonHexLetters,
   jobR "cidrv6_partial" Fmt.cidrv6Hex "Fmt.cidrv6Hex" "pat_cidrv6" (lookupRe "cidrv6" 0 true) [46, 37] Fmt.nonHexLetters,
+  -- without '%', with '.': RFC 4291 outside the dotted-quad defect region
+  jobRE "ipv6_dot" Fmt.ipv6Q Fmt.ipv6QuadDefect "Fmt.ipv6Q" "Fmt.ipv6QuadDefect" "pat_ipv6" (lookupRe "ipv6" 0 true) [37] Fmt.nonHexLetters,
+  jobRE "cidrv6_dot" Fmt.cidrv6Q Fmt.cidrv6QuadDefect "Fmt.cidrv6Q" "Fmt.cidrv6QuadDefect" "pat_cidrv6" (lookupRe "cidrv6" 0 true) [37] Fmt.nonHexLetters,
   jobE "isodatetime_partial" (Fmt.isoDateTimeQ false) Fmt.isoDateTimeNoSecQ "Fmt.isoDateTimeQ false" "Fmt.isoDateTimeNoSecQ" "pat_isodatetime" (lookupRe "isodatetime" 0 true),
   jobE "base64url_partial" Fmt.base64url Fmt.base64urlBadLen "Fmt.base64url" "Fmt.base64urlBadLen" "pat_base64url" (lookupRe "base64url" 0 true)]
 
